@@ -108,11 +108,13 @@ static void compare_and_finish(const char *shape, int expect_depth)
 }
 static int N; static int g_n;
 static char g_main[300];
+static int g_no_final_nl;             /* file-shape variant: the last line has no newline character */
 static void run_file(const int *kinds, int n, const char *shape)
 {
     char data[4000], tmp[400]; size_t o = 0;
     o += (size_t) snprintf(data, sizeof data, "<verif-1.0>\n");
     for (int i = 0; i < n; i++) o += (size_t) snprintf(data + o, sizeof data - o, "%s\n", line_text(kinds[i], tmp, sizeof tmp));
+    if (g_no_final_nl && n > 0) o--;
     snprintf(g_main, sizeof g_main, "%s/main-%d.cfg", scratch(), (int) getpid());
     write_file(g_main, data, o);
     setup();
@@ -127,18 +129,21 @@ static void run_file(const int *kinds, int n, const char *shape)
 }
 static void f_desc(uint64_t idx, void *ctx, char *b, size_t n)
 {
-    int d[12]; char tmp[400]; size_t o = 0; (void) ctx; mc_word_decode(idx, NKIND, g_n, d);
-    o += (size_t) snprintf(b, n, "config file:");
+    int d[12]; char tmp[400]; size_t o = 0; (void) ctx; mc_word_decode(idx / 2, NKIND, g_n, d);
+    o += (size_t) snprintf(b, n, "config file%s:", idx % 2 ? " (no newline after the last line)" : "");
     for (int i = 0; i < g_n; i++) { const char *t = line_text(d[i], tmp, sizeof tmp); if (d[i] >= L_INC_MISS) t = d[i] == L_INC_MISS ? "%include <missing file>" : (d[i] == L_INC_NOMAGIC ? "%include <file without the magic line>" : "%include <t1, include of a missing file, t2>"); else if (d[i] >= L_INC1 && d[i] <= L_INC3) t = d[i] == L_INC1 ? "%include <plain>" : (d[i] == L_INC2 ? "%include <unbalanced: begin A, t1>" : "%include <nested: includes plain, then v $V>"); o += (size_t) snprintf(b + o, n - o, " [%s]", t); }
 }
 static void f_case(uint64_t idx, void *ctx)
 {
-    int d[12]; (void) ctx; mc_word_decode(idx, NKIND, g_n, d);
+    int d[12]; (void) ctx; mc_word_decode(idx / 2, NKIND, g_n, d);
+    g_no_final_nl = (int) (idx % 2);
+    if (g_no_final_nl && g_n == 0) return;
     prepare_includes();
     int nb = 0, ne = 0, inc = 0; for (int i = 0; i < g_n; i++) { if (d[i] >= L_BEGIN_A && d[i] <= L_BEGIN_ZZ) nb++; if (d[i] == L_END || d[i] == L_END_A) ne++; if ((d[i] >= L_INC1 && d[i] <= L_INC3) || d[i] >= L_INC_MISS) inc++; }
     const char *shape = inc ? "with %include" : (nb == ne ? (nb ? "balanced blocks" : "no blocks") : (nb > ne ? "unclosed blocks" : "surplus end"));
     mc_set_shape(shape);
     run_file(d, g_n, shape);
+    g_no_final_nl = 0;
     if (nb || inc) mc_nontrivial();
     mc_outcome(mc_hash(EXP, sizeof(ev_t) * (size_t) (NEXP < 8 ? NEXP : 8)) + (uint64_t) NEXP);
 }
@@ -193,15 +198,43 @@ static void i_case(uint64_t idx, void *ctx)
     for (int i = 0; i < d; i++) unlink(path[i]);
     mc_nontrivial();
 }
+/* ---- over-long lines: [begin A] [n x 'L'] [t1] [end] for n around every multiple of the 20479-character read chunk: a line that does not
+ * fit is reported once and skipped as a whole; the line after it is delivered exactly once */
+static int ll_n(uint64_t idx) { static const int base[3] = { 20470, 40949, 61428 }; return base[idx / 20] + (int) (idx % 20); }
+static void ll_desc(uint64_t idx, void *ctx, char *b, size_t n) { (void) ctx; snprintf(b, n, "config file: [begin A] [%d x 'L'] [t1] [end]", ll_n(idx)); }
+static void ll_case(uint64_t idx, void *ctx)
+{
+    int n = ll_n(idx), fits = n + 1 <= CONFIG_BUFF - 1; (void) ctx;
+    const char *shape = fits ? "long line that fits" : "line over the limit";
+    mc_set_shape(shape);
+    char *data = malloc((size_t) n + 100); size_t o = (size_t) sprintf(data, "<verif-1.0>\nbegin A\n");
+    memset(data + o, 'L', (size_t) n); o += (size_t) n; o += (size_t) sprintf(data + o, "\nt1\nend\n");
+    snprintf(g_main, sizeof g_main, "%s/long-%d.cfg", scratch(), (int) getpid());
+    write_file(g_main, data, o);
+    setup();
+    m_line(L_BEGIN_A);
+    if (fits) { char t[64]; memset(t, 'L', 39); t[39] = 0; STK[DEPTH].state = m_call(STK[DEPTH].ctx, 'T', t, STK[DEPTH].state); }
+    m_line(L_T1); m_line(L_END);
+    g_env_on = 1; g_ledger_on = 1; g_allow_fork = 0;
+    spif_charptr_t r = spifconf_parse((spif_charptr_t) g_main, NULL, NULL);
+    g_env_on = 0; g_ledger_on = 0; g_allow_fork = 1;
+    if (!r) FAIL("spifconf_parse", "model:return", shape, "returned NULL"); else FREE(r);
+    if (g_errors != (fits ? 0 : 1)) FAIL("spifconf_parse", "model:diagnostics", shape, "%d error diagnostics for a line of %d characters, expected %d; last: %s", g_errors, n, fits ? 0 : 1, g_last_error);
+    compare_and_finish(shape, DEPTH);
+    free(data);
+    mc_nontrivial();
+    mc_outcome((uint64_t) fits);
+}
 int main(int argc, char **argv)
 {
     mc_init("C09", argc, argv);
     libast_debug_level = (unsigned) mc_dlevel();        /* --dlevel=N: the whole run at runtime debug level N (default 0) */
     N = (int) mc_arg_int("N", mc_thorough() ? 5 : 3);
     mc_info("alphabet", "files of <= %d lines over 19 line kinds {# c, blank, begin A|B|a|zz(unknown), end, end A, t1, '  t2 two  ', 'v $V', %%include plain|unbalanced|nested|missing|without magic line|file that includes a missing file, endx, beginx}; "
-            "contexts A, B registered with recording handlers, null context built in; depth sweep 1..255 balanced and unbalanced; include-chain sweep 1..30", N);
+            "contexts A, B registered with recording handlers, null context built in; depth sweep 1..255 balanced and unbalanced; include-chain sweep 1..30; lines of 20470..20489, 40949..40968 and 61428..61447 characters followed by an ordinary line; every file also without a newline after its last line", N);
     mc_e2_level("depth", 255, 255 * 2, d_case, d_desc, NULL);
     mc_e2_level("include_chain", 30, 30, i_case, i_desc, NULL);
-    for (g_n = 0; g_n <= N; g_n++) if (!mc_e2_level("files", g_n, mc_words_of_len(NKIND, g_n), f_case, f_desc, NULL)) break;
+    mc_e2_level("long_lines", 61447, 60, ll_case, ll_desc, NULL);
+    for (g_n = 0; g_n <= N; g_n++) if (!mc_e2_level("files", g_n, mc_words_of_len(NKIND, g_n) * 2, f_case, f_desc, NULL)) break;
     return mc_finish();
 }
